@@ -25,6 +25,10 @@ mod c19;
 mod c20;
 mod tracked;
 mod lin;
+mod chanseq;
+mod c15;
+mod c08;
+mod c16;
 
 use registry::Tier;
 
@@ -37,6 +41,7 @@ fn main() {
             master::run(prop, tier)
         }
         Some("worker") => { master::worker(); 0 }
+        Some("c15sub") => c15::sub_main(Tier::parse(args.get(2).map(|s| s.as_str()).unwrap_or("quick")).expect("tier")),
         Some("replay") => master::replay(args.get(2).expect("replay file")),
         Some("list") => {
             let prop = args.get(2).expect("property id");
